@@ -163,7 +163,7 @@ theorem feeSplitB_of {pre post : State} {payer : Addr} {fd : String} {n tax : Na
 
 /-! ### C09: accepted operations -/
 
-open Irismod.Spec.C09 (acceptedFails stepFails)
+open Irismod.Spec.C09 (acceptedFails acceptedV1 asLegacy stepFails)
 
 theorem feeUnit_of {s : State} {d : String} (h : ∃ t, getToken s s.params.feeDenom = some t ∧ d = t.minUnit) :
     feeUnit s = some d := by
@@ -185,7 +185,7 @@ theorem feeUnit_registered {s : State} (hwf : WF s) {d : String}
 theorem accepted_issue (s s' : State) (owner symbol name minUnit : String) (scale init max : Nat) (mintable : Bool)
     (hwf : WF s) (hsound : Sound s.bank)
     (hs : step s (.issue owner symbol name minUnit scale init max mintable) = .ok s') :
-    acceptedFails s (.issue owner symbol name minUnit scale init max mintable) s' = [] := by
+    acceptedV1 s (.issue owner symbol name minUnit scale init max mintable) s' = [] := by
   obtain ⟨hv, _, s1, h1, hc1, hc2, rfl⟩ := issue_ok hs
   obtain ⟨d, n, tax, b', hfee, ht, he, rfl, hsd⟩ := deductFee_full h1
   obtain ⟨_, hexact⟩ := hsd hsound
@@ -222,7 +222,7 @@ theorem accepted_issue (s s' : State) (owner symbol name minUnit : String) (scal
     · simp [hz]
   have q6 : burnedSameExcept s (addIssued { s with bank := b' } (issuedToken owner symbol name minUnit scale init max mintable)) [] = true :=
     burnedSame_of _ _ _ (fun _ _ => rfl)
-  unfold acceptedFails
+  unfold acceptedV1
   simp only [q1, q2, q3, q4, q5, q6, chk_true, List.nil_append, hfu]
   split
   · rfl
@@ -260,9 +260,9 @@ theorem accepted_issue (s s' : State) (owner symbol name minUnit : String) (scal
 
 theorem accepted_edit (s s' : State) (owner symbol name : String) (max : Nat) (mintable : String)
     (hs : step s (.edit owner symbol name max mintable) = .ok s') :
-    acceptedFails s (.edit owner symbol name max mintable) s' = [] := by
+    acceptedV1 s (.edit owner symbol name max mintable) s' = [] := by
   obtain ⟨t, ht, ho, hm, rfl⟩ := edit_ok hs
-  unfold acceptedFails
+  unfold acceptedV1
   simp only [ht]
   have q1 : (t.owner == owner) = true := by simp [ho]
   have q2 : (AMap.get? (AMap.set s.tokens symbol (edited t name max mintable)) symbol == some (edited t name max mintable)) = true := by
@@ -285,12 +285,12 @@ theorem accepted_edit (s s' : State) (owner symbol name : String) (max : Nat) (m
 
 theorem accepted_transferOwner (s s' : State) (src dst symbol : String)
     (hs : step s (.transferOwner src dst symbol) = .ok s') :
-    acceptedFails s (.transferOwner src dst symbol) s' = [] := by
+    acceptedV1 s (.transferOwner src dst symbol) s' = [] := by
   obtain ⟨_, t, ht, ho, hs'⟩ := transferOwner_ok hs
   have et : s'.tokens = AMap.set s.tokens symbol { t with owner := dst } := by rw [hs']
   have eb : s'.bank = s.bank := by rw [hs']
   have ebu : s'.burned = s.burned := by rw [hs']
-  unfold acceptedFails
+  unfold acceptedV1
   simp only [ht]
   have q1 : (t.owner == src) = true := by simp [ho]
   have q2 : (AMap.get? s'.tokens symbol == some { t with owner := dst }) = true := by
@@ -301,13 +301,13 @@ theorem accepted_transferOwner (s s' : State) (src dst symbol : String)
   have q5 : burnedSameExcept s s' [] = true := burnedSame_of _ _ _ (fun _ _ => by unfold burnedOf; rw [ebu])
   simp only [q1, q2, q3, q4, q5, chk_true, List.nil_append]
 
-theorem accepted_burn (s s' : State) (sender denom : String) (amount : Int) (hsound : Sound s.bank)
-    (hs : step s (.burn sender denom amount) = .ok s') :
-    acceptedFails s (.burn sender denom amount) s' = [] := by
-  obtain ⟨_, ⟨t, ht⟩, b, hb, rfl⟩ := burn_step_ok hs
+theorem accepted_burnH (s s' : State) (sender denom : String) (amount : Int) (hsound : Sound s.bank)
+    (hh : handleBurn s sender denom amount = .ok s') :
+    acceptedV1 s (.burn sender denom amount) s' = [] := by
+  obtain ⟨⟨t, ht⟩, b, hb, rfl⟩ := burnH_ok hh
   obtain ⟨e1, e2, _, e4, e5⟩ := burn_ok hb
   have e3 := burn_supply_exact hsound hb
-  unfold acceptedFails
+  unfold acceptedV1
   have q1 : (tokenByMinUnit s denom).isSome = true := by rw [ht]; rfl
   have q2 : (decide (amount.toNat ≤ balOf s sender denom) &&
       balOf { s with bank := b, burned := AMap.set s.burned denom (burnedOf s denom + amount.toNat) } sender denom + amount.toNat
@@ -340,17 +340,17 @@ theorem accepted_burn (s s' : State) (sender denom : String) (amount : Int) (hso
     tokensSame_of _ _ _ (fun _ _ => rfl)
   simp only [q1, q2, q3, q4, q5, q6, q7, q8, chk_true, List.nil_append]
 
-theorem accepted_mint (s s' : State) (owner rcv denom : String) (amount : Int) (hwf : WF s) (hsound : Sound s.bank)
-    (hs : step s (.mint owner rcv denom amount) = .ok s') :
-    acceptedFails s (.mint owner rcv denom amount) s' = [] := by
-  obtain ⟨_, _, sym, s1, _, h1, h2⟩ := mint_ok hs
+theorem accepted_mintH (s s' : State) (owner rcv denom : String) (amount : Int) (hwf : WF s) (hsound : Sound s.bank)
+    (hh : handleMint s owner rcv denom amount = .ok s') :
+    acceptedV1 s (.mint owner rcv denom amount) s' = [] := by
+  obtain ⟨_, sym, s1, _, h1, h2⟩ := mintH_ok hh
   obtain ⟨d, n, tax, b', hfee, ht, he, rfl, hsd⟩ := deductFee_full h1
   obtain ⟨_, hexact⟩ := hsd hsound
   obtain ⟨t, htok, ho, hmt, hroom, rfl⟩ := mintChecked_ok h2
   have htok' : tokenByMinUnit s denom = some t := htok
   obtain ⟨emu, _, _⟩ := Props.C09.tokenByMinUnit_wf hwf htok'
   have hfu := feeUnit_of (mintFee_unit hfee)
-  unfold acceptedFails
+  unfold acceptedV1
   simp only [htok', hfu]
   have hr : (if rcv = "" then owner else rcv) = rcptOf owner rcv := rfl
   rw [hr]
@@ -415,15 +415,87 @@ theorem accepted_mint (s s' : State) (owner rcv denom : String) (amount : Int) (
 /-- did the model accept the operation? -/
 def accepted (s : State) (op : Op) : Bool := match step s op with | .ok _ => true | .error _ => false
 
+theorem accepted_burn (s s' : State) (sender denom : String) (amount : Int) (hsound : Sound s.bank)
+    (hs : step s (.burn sender denom amount) = .ok s') :
+    acceptedFails s (.burn sender denom amount) s' = [] :=
+  accepted_burnH s s' sender denom amount hsound (burn_handle hs).2.2
+
+theorem accepted_mint (s s' : State) (owner rcv denom : String) (amount : Int) (hwf : WF s) (hsound : Sound s.bank)
+    (hs : step s (.mint owner rcv denom amount) = .ok s') :
+    acceptedFails s (.mint owner rcv denom amount) s' = [] :=
+  accepted_mintH s s' owner rcv denom amount hwf hsound (mint_handle hs).2.2
+
+theorem asLegacy_nil : asLegacy [] = [] := rfl
+
+/-- an accepted legacy mint passes the clauses of the v1 mint it is translated to -/
+theorem accepted_legacyMint (s s' : State) (owner rcv symbol : String) (amount : Nat) (hwf : WF s) (hsound : Sound s.bank)
+    (hs : step s (.legacyMint owner rcv symbol amount) = .ok s') :
+    acceptedFails s (.legacyMint owner rcv symbol amount) s' = [] := by
+  obtain ⟨_, _, t, ht, _, _, hh⟩ := legacyMint_ok hs
+  unfold acceptedFails
+  simp only [ht]
+  rw [accepted_mintH s s' owner rcv t.minUnit _ hwf hsound hh]; rfl
+
+/-- an accepted legacy burn passes the clauses of the v1 burn it is translated to -/
+theorem accepted_legacyBurn (s s' : State) (sender symbol : String) (amount : Nat) (hsound : Sound s.bank)
+    (hs : step s (.legacyBurn sender symbol amount) = .ok s') :
+    acceptedFails s (.legacyBurn sender symbol amount) s' = [] := by
+  obtain ⟨_, _, t, ht, _, _, hh⟩ := legacyBurn_ok hs
+  unfold acceptedFails
+  simp only [ht]
+  rw [accepted_burnH s s' sender t.minUnit _ hsound hh]; rfl
+
 theorem accepted_other (s s' : State) (op : Op) (hop : Spec.C09.isC09Op op = false) (hs : step s op = .ok s') :
     burnedSameExcept s s' [] = true := by
   apply burnedSame_of
   intro k _
   rw [Props.C09.burned_step s s' op hs k]
-  cases op <;> first | (simp [Props.C09.burnAdds]; done) | cases hop
+  cases op <;> first | (simp [Spec.C09.burnAdds]; done) | cases hop
 
-/-- **C09 monitor soundness**: on every model step — accepted or rejected, any of the 13 operations —
-from a state with consistent tables and a sound bank, every clause of `Spec.C09.stepFails` holds -/
+/-- the clauses of a legacy issue / edit / hand-over are those of the v1 operation it is -/
+theorem acceptedFails_of_norm (s s' : State) (op : Op) (h : acceptedFails s (norm op) s' = []) :
+    acceptedFails s op s' = [] := by
+  cases op with
+  | legacyIssue owner symbol name minUnit scale init max mintable =>
+    have h' : acceptedV1 s (.issue owner symbol name minUnit scale init max mintable) s' = [] := h
+    show asLegacy (acceptedV1 s (.issue owner symbol name minUnit scale init max mintable) s') = []
+    rw [h']; rfl
+  | legacyEdit owner symbol name max mintable =>
+    have h' : acceptedV1 s (.edit owner symbol name max mintable) s' = [] := h
+    show asLegacy (acceptedV1 s (.edit owner symbol name max mintable) s') = []
+    rw [h']; rfl
+  | legacyTransferOwner src dst symbol =>
+    have h' : acceptedV1 s (.transferOwner src dst symbol) s' = [] := h
+    show asLegacy (acceptedV1 s (.transferOwner src dst symbol) s') = []
+    rw [h']; rfl
+  | _ => exact h
+
+theorem c09_accepted_core (s s' : State) (op : Op) (hn : norm op = op) (hwf : WF s) (hsound : Sound s.bank)
+    (hs : step s op = .ok s') : acceptedFails s op s' = [] := by
+  cases op with
+  | issue owner symbol name minUnit scale init max mintable => exact accepted_issue s s' _ _ _ _ _ _ _ _ hwf hsound hs
+  | edit owner symbol name max mintable => exact accepted_edit s s' _ _ _ _ _ hs
+  | mint owner rcv denom amount => exact accepted_mint s s' _ _ _ _ hwf hsound hs
+  | burn sender denom amount => exact accepted_burn s s' _ _ _ hsound hs
+  | transferOwner src dst symbol => exact accepted_transferOwner s s' _ _ _ hs
+  | legacyMint owner rcv symbol amount => exact accepted_legacyMint s s' _ _ _ _ hwf hsound hs
+  | legacyBurn sender symbol amount => exact accepted_legacyBurn s s' _ _ _ hsound hs
+  | legacyIssue _ _ _ _ _ _ _ _ => cases hn
+  | legacyEdit _ _ _ _ _ => cases hn
+  | legacyTransferOwner _ _ _ => cases hn
+  | swapFee _ _ _ _ => unfold acceptedFails acceptedV1; rw [accepted_other s s' _ rfl hs]; rfl
+  | deploy _ _ _ _ _ => unfold acceptedFails acceptedV1; rw [accepted_other s s' _ rfl hs]; rfl
+  | swapToErc20 _ _ _ _ => unfold acceptedFails acceptedV1; rw [accepted_other s s' _ rfl hs]; rfl
+  | swapFromErc20 _ _ _ _ => unfold acceptedFails acceptedV1; rw [accepted_other s s' _ rfl hs]; rfl
+  | hookSwap _ _ _ _ => unfold acceptedFails acceptedV1; rw [accepted_other s s' _ rfl hs]; rfl
+  | evmFault _ => unfold acceptedFails acceptedV1; rw [accepted_other s s' _ rfl hs]; rfl
+  | updateParams _ _ => unfold acceptedFails acceptedV1; rw [accepted_other s s' _ rfl hs]; rfl
+  | evmTx _ _ => unfold acceptedFails acceptedV1; rw [accepted_other s s' _ rfl hs]; rfl
+  | upgradeErc20 _ _ => unfold acceptedFails acceptedV1; rw [accepted_other s s' _ rfl hs]; rfl
+
+/-- **C09 monitor soundness**: on every model step — accepted or rejected, any of the 19 operations
+(v1 and legacy Msg service, conversions, deployment, upgrade) — from a state with consistent tables
+and a sound bank, every clause of `Spec.C09.stepFails` holds -/
 theorem c09_monitor_sound (s : State) (op : Op) (hwf : WF s) (hown : OwnIdx s) (hsound : Sound s.bank) :
     stepFails s op (accepted s op) (apply s op) = [] := by
   unfold stepFails accepted apply
@@ -439,20 +511,8 @@ theorem c09_monitor_sound (s : State) (op : Op) (hwf : WF s) (hown : OwnIdx s) (
     have a3 : keepsB s s' = true := keepsB_of_change (Props.C09.change_step s s' op hwf hs)
     rw [a1, a2, a3]
     simp only [chk_true, List.append_nil]
-    cases op with
-    | issue owner symbol name minUnit scale init max mintable => exact accepted_issue s s' _ _ _ _ _ _ _ _ hwf hsound hs
-    | edit owner symbol name max mintable => exact accepted_edit s s' _ _ _ _ _ hs
-    | mint owner rcv denom amount => exact accepted_mint s s' _ _ _ _ hwf hsound hs
-    | burn sender denom amount => exact accepted_burn s s' _ _ _ hsound hs
-    | transferOwner src dst symbol => exact accepted_transferOwner s s' _ _ _ hs
-    | swapFee _ _ _ _ => unfold acceptedFails; rw [accepted_other s s' _ rfl hs]; rfl
-    | deploy _ _ _ _ _ => unfold acceptedFails; rw [accepted_other s s' _ rfl hs]; rfl
-    | swapToErc20 _ _ _ _ => unfold acceptedFails; rw [accepted_other s s' _ rfl hs]; rfl
-    | swapFromErc20 _ _ _ _ => unfold acceptedFails; rw [accepted_other s s' _ rfl hs]; rfl
-    | hookSwap _ _ _ _ => unfold acceptedFails; rw [accepted_other s s' _ rfl hs]; rfl
-    | evmFault _ => unfold acceptedFails; rw [accepted_other s s' _ rfl hs]; rfl
-    | updateParams _ _ => unfold acceptedFails; rw [accepted_other s s' _ rfl hs]; rfl
-    | evmTx _ _ => unfold acceptedFails; rw [accepted_other s s' _ rfl hs]; rfl
+    exact acceptedFails_of_norm s s' op
+      (c09_accepted_core s s' (norm op) (norm_idem op) hwf hsound (by rw [← step_norm]; exact hs))
 
 /-! ### C10: accepted conversions -/
 
@@ -711,8 +771,80 @@ theorem evm_tx (s s' : State) (target : Emitter) (logs : List SwapLog) (hwf : WF
   have q4 : tokensSameExcept s s' "" = true := tokensSame_of _ _ _ (fun _ _ => by rw [f.tokens])
   simp only [q1, q2, q3, q4, chk_true, List.nil_append]
 
-/-- **C10 monitor soundness**: on every model step from a state with consistent tables, a consistent
-contract binding and a sound bank, every clause of `Spec.C10.stepFails` holds -/
+theorem evmSame_of_eq (s s' : State) (ee : s'.evm = s.evm) : evmSameExcept s s' [] = true :=
+  evmSame_of s s' [] (fun _ _ => by unfold evmBal; rw [ee])
+
+theorem c10_accepted_core (s s' : State) (op : Op) (hn : norm op = op) (hwf : WF s) (hb : Bound s)
+    (hsound : Sound s.bank) (hs : step s op = .ok s') : Spec.C10.acceptedFails s op s' = [] := by
+  cases op with
+  | swapToErc20 sender receiver denom amount => exact to_erc20 s s' _ _ _ _ hsound hs
+  | swapFromErc20 sender receiver denom amount => exact from_erc20 s s' _ _ _ _ hs
+  | hookSwap src c rcv amount => exact hook s s' _ _ _ _ hs
+  | swapFee sender rcv denom amount => exact swap_fee s s' _ _ _ _ hwf hsound hs
+  | evmTx target logs => exact evm_tx s s' _ _ hwf hb hsound hs
+  | deploy authority name symbol minUnit scale =>
+    obtain ⟨t, _, _, hs'⟩ := deploy_ok hs
+    have eb : s'.bank = s.bank := by rw [hs']
+    have ee : s'.evm = s.evm := by rw [hs']
+    simp only [Spec.C10.acceptedFails, bankSame_of _ _ eb, evmSame_of_eq s s' ee, Bool.and_self, chk_true]
+  | evmFault mode =>
+    have hs' := evmFault_ok hs
+    have eb : s'.bank = s.bank := by rw [hs']
+    have ee : s'.evm = s.evm := by rw [hs']
+    simp only [Spec.C10.acceptedFails, bankSame_of _ _ eb, evmSame_of_eq s s' ee, Bool.and_self, chk_true]
+  | upgradeErc20 authority impl =>
+    obtain ⟨ha, he, hbc, _, hcode, hs'⟩ := upgrade_ok hs
+    have eb : s'.bank = s.bank := by rw [hs']
+    have ee : s'.evm = s.evm := by rw [hs']
+    have et : s'.tokens = s.tokens := by rw [hs']
+    have ei : s'.impl = impl := by rw [hs']
+    have q1 : (authority == GOV) = true := by simp [ha]
+    have q3 : tokensSameExcept s s' "" = true := tokensSame_of _ _ _ (fun _ _ => by rw [et])
+    have q4 : (s'.impl == impl) = true := by simp [ei]
+    simp only [Spec.C10.acceptedFails, q1, he, hbc, hcode, bankSame_of _ _ eb, evmSame_of_eq s s' ee, q3, q4, Bool.and_self,
+      chk_true, List.nil_append]
+  | issue owner symbol name minUnit scale init max mintable =>
+    obtain ⟨_, _, s1, h1, _, _, hs'⟩ := issue_ok hs
+    obtain ⟨_, _, _, _, _, _, _, rfl⟩ := deductFee_ok h1
+    have ee : s'.evm = s.evm := by rw [hs']; rfl
+    simp only [Spec.C10.acceptedFails, evmSame_of_eq s s' ee, chk_true]
+  | edit owner symbol name max mintable =>
+    obtain ⟨t, _, _, _, hs'⟩ := edit_ok hs
+    have ee : s'.evm = s.evm := by rw [hs']
+    simp only [Spec.C10.acceptedFails, evmSame_of_eq s s' ee, chk_true]
+  | mint owner rcv denom amount =>
+    have ee := (Props.C10.frame_mintH (mint_handle hs).2.2).2.2.2.1
+    simp only [Spec.C10.acceptedFails, evmSame_of_eq s s' ee, chk_true]
+  | burn sender denom amount =>
+    have ee := (Props.C10.frame_burnH (burn_handle hs).2.2).2.2.2.1
+    simp only [Spec.C10.acceptedFails, evmSame_of_eq s s' ee, chk_true]
+  | transferOwner src dst symbol =>
+    obtain ⟨_, t, _, _, hs'⟩ := transferOwner_ok hs
+    have ee : s'.evm = s.evm := by rw [hs']
+    simp only [Spec.C10.acceptedFails, evmSame_of_eq s s' ee, chk_true]
+  | updateParams authority p =>
+    have hs' := (updateParams_ok hs).2
+    have ee : s'.evm = s.evm := by rw [hs']
+    simp only [Spec.C10.acceptedFails, evmSame_of_eq s s' ee, chk_true]
+  | legacyIssue _ _ _ _ _ _ _ _ => cases hn
+  | legacyEdit _ _ _ _ _ => cases hn
+  | legacyTransferOwner _ _ _ => cases hn
+  | legacyMint owner rcv symbol amount =>
+    obtain ⟨_, _, t, _, _, _, hh⟩ := legacyMint_ok hs
+    have ee := (Props.C10.frame_mintH hh).2.2.2.1
+    simp only [Spec.C10.acceptedFails, evmSame_of_eq s s' ee, chk_true]
+  | legacyBurn sender symbol amount =>
+    obtain ⟨_, _, t, _, _, _, hh⟩ := legacyBurn_ok hs
+    have ee := (Props.C10.frame_burnH hh).2.2.2.1
+    simp only [Spec.C10.acceptedFails, evmSame_of_eq s s' ee, chk_true]
+
+theorem c10_acceptedFails_norm (s s' : State) (op : Op) :
+    Spec.C10.acceptedFails s (norm op) s' = Spec.C10.acceptedFails s op s' := by
+  cases op <;> rfl
+
+/-- **C10 monitor soundness**: on every model step (any of the 19 operations) from a state with
+consistent tables, a consistent contract binding and a sound bank, every clause of
+`Spec.C10.stepFails` holds -/
 theorem c10_monitor_sound (s : State) (op : Op) (hwf : WF s) (hb : Bound s) (hsound : Sound s.bank) :
     Spec.C10.stepFails s op (accepted s op) (apply s op) = [] := by
   unfold Spec.C10.stepFails accepted apply
@@ -722,51 +854,13 @@ theorem c10_monitor_sound (s : State) (op : Op) (hwf : WF s) (hb : Bound s) (hso
     rw [sameState_refl]; rfl
   | ok s' =>
     simp only [if_true]
-    cases op with
-    | swapToErc20 sender receiver denom amount => exact to_erc20 s s' _ _ _ _ hsound hs
-    | swapFromErc20 sender receiver denom amount => exact from_erc20 s s' _ _ _ _ hs
-    | hookSwap src c rcv amount => exact hook s s' _ _ _ _ hs
-    | swapFee sender rcv denom amount => exact swap_fee s s' _ _ _ _ hwf hsound hs
-    | evmTx target logs => exact evm_tx s s' _ _ hwf hb hsound hs
-    | deploy authority name symbol minUnit scale =>
-      obtain ⟨t, _, _, hs'⟩ := deploy_ok hs
-      have eb : s'.bank = s.bank := by rw [hs']
-      have ee : s'.evm = s.evm := by rw [hs']
-      simp only [Spec.C10.acceptedFails, bankSame_of _ _ eb, evmSame_of s s' [] (fun _ _ => by unfold evmBal; rw [ee]),
-        Bool.and_self, chk_true]
-    | evmFault mode =>
-      have hs' := evmFault_ok hs
-      have eb : s'.bank = s.bank := by rw [hs']
-      have ee : s'.evm = s.evm := by rw [hs']
-      simp only [Spec.C10.acceptedFails, bankSame_of _ _ eb, evmSame_of s s' [] (fun _ _ => by unfold evmBal; rw [ee]),
-        Bool.and_self, chk_true]
-    | issue owner symbol name minUnit scale init max mintable =>
-      obtain ⟨_, _, s1, h1, _, _, hs'⟩ := issue_ok hs
-      obtain ⟨_, _, _, _, _, _, _, rfl⟩ := deductFee_ok h1
-      have ee : s'.evm = s.evm := by rw [hs']; rfl
-      simp only [Spec.C10.acceptedFails, evmSame_of s s' [] (fun _ _ => by unfold evmBal; rw [ee]), chk_true]
-    | edit owner symbol name max mintable =>
-      obtain ⟨t, _, _, _, hs'⟩ := edit_ok hs
-      have ee : s'.evm = s.evm := by rw [hs']
-      simp only [Spec.C10.acceptedFails, evmSame_of s s' [] (fun _ _ => by unfold evmBal; rw [ee]), chk_true]
-    | mint owner rcv denom amount =>
-      obtain ⟨_, _, sym, s1, _, h1, h2⟩ := mint_ok hs
-      obtain ⟨_, _, _, _, _, _, _, rfl⟩ := deductFee_ok h1
-      obtain ⟨_, _, _, _, _, hs'⟩ := mintChecked_ok h2
-      have ee : s'.evm = s.evm := by rw [hs']
-      simp only [Spec.C10.acceptedFails, evmSame_of s s' [] (fun _ _ => by unfold evmBal; rw [ee]), chk_true]
-    | burn sender denom amount =>
-      obtain ⟨_, _, b, _, hs'⟩ := burn_step_ok hs
-      have ee : s'.evm = s.evm := by rw [hs']
-      simp only [Spec.C10.acceptedFails, evmSame_of s s' [] (fun _ _ => by unfold evmBal; rw [ee]), chk_true]
-    | transferOwner src dst symbol =>
-      obtain ⟨_, t, _, _, hs'⟩ := transferOwner_ok hs
-      have ee : s'.evm = s.evm := by rw [hs']
-      simp only [Spec.C10.acceptedFails, evmSame_of s s' [] (fun _ _ => by unfold evmBal; rw [ee]), chk_true]
-    | updateParams authority p =>
-      have hs' := (updateParams_ok hs).2
-      have ee : s'.evm = s.evm := by rw [hs']
-      simp only [Spec.C10.acceptedFails, evmSame_of s s' [] (fun _ _ => by unfold evmBal; rw [ee]), chk_true]
+    rw [← c10_acceptedFails_norm,
+      c10_accepted_core s s' (norm op) (norm_idem op) hwf hb hsound (by rw [← step_norm]; exact hs)]
+    cases hu : Spec.C10.isUpgrade op with
+    | true => rfl
+    | false =>
+      have := Props.C10.impl_changes_only_by_upgrade s s' op hs hu
+      simp [this, chk]
 
 end C10
 
@@ -797,7 +891,7 @@ theorem sameState_of_obsEq {s s' : State} (h : ObsEq s' s) : sameState s s' = tr
       tableSame_of _ _ (fun k => (h.owners k).symm), tableSame_of _ _ hburn,
       tableSame_of _ _ (fun k => (h.contracts k).symm), bankSame_of s s' h.bank,
       evmSame_of s s' [] (fun _ _ => by unfold evmBal; rw [h.evm])]
-  simp [h.params, h.nonce, h.fault]
+  simp [h.params, h.nonce, h.fault, h.impl]
 
 /-- **C12 monitor soundness, `token export`**: on a reachable state outside the recorded classes the
 clause holds; inside them every failure carries the class tag (never an unclassified failure) -/
